@@ -34,6 +34,11 @@ def gen_spec(h, r):
     return "<start> ::= " + " ".join(parts) + "\n" + "\n".join(rules) + "\n" + "\n".join(cons) + "\n"
 
 
+def gen_spec_k(k):
+    """one comparison constraint that is evaluated at k places of the tree (the per-constraint fitness is a mean over k matches)"""
+    return ('<start> ::= <d>{%d}\n<d> ::= "0" | "1" | "2" | "3" | "4" | "5" | "6" | "7" | "8" | "9"\nwhere int(<d>) != 9\n' % k)
+
+
 def table_replay(rep, maxn):
     from fandango.evolution.evaluation import Evaluator
     from fandango.constraints.constraint import Constraint
@@ -111,14 +116,14 @@ def table_replay(rep, maxn):
     return n
 
 
-def e2e(rep, pairs, seeds):
+def e2e(rep, pairs, seeds, ks=()):
     from harness.probes import evaluator_probe, FreshJudge
     quiet()
     events = []
     tid = 0
     meta = {}
-    for (h, r) in pairs:
-        spec = gen_spec(h, r)
+    plan = [(h, r, gen_spec(h, r)) for (h, r) in pairs] + [(1, 0, gen_spec_k(k)) for k in ks]
+    for (h, r, spec) in plan:
         for s in seeds:
             tid += 1
             normalise(s)
@@ -190,7 +195,7 @@ def run(tier, seed):
     else:
         pairs = allpairs + [(h, r) for h in (11, 13, 16) for r in (2, 5, 10)]
         seeds = [seed, seed + 1]
-    e2e(rep, pairs, seeds)
+    e2e(rep, pairs, seeds, ks=range(1, 13) if tier == "quick" else range(1, 33))
     rep.add(exhaustive=True,
             rule="table: every (h,r,hs,rs) with h,r <= %d; end-to-end: one search per (h,r) pair and seed, "
                  "every evaluate_individual return is one event" % maxn)
